@@ -32,6 +32,8 @@ func checkC05(c *Ctx) {
 			c.fanOut(sp)
 		}
 	}
+	// teardown dereferences the will of a connection that announced one: the session builds it whenever the flag is set
+	c.sessionConnectAndWill()
 	// decoders are total (B1/B2): which obligations are open?
 	an := bounds.NewAnalyzer(c.P)
 	entries := c.decodeEntries()
